@@ -288,6 +288,7 @@ pub fn run(args: &Args, out: &mut Out) {
                     scheduler: true,
                     path: Some(f.to_string_lossy().to_string()),
                     origin: Some(origin),
+                    split: None,
                 })
             } else {
                 let finite = rng.chance(1, 2);
